@@ -568,3 +568,16 @@ package impl
 //@   atomic counter -- only ever the operand of sync/atomic
 //@ func impl.newTimeCounter {C18}
 //@   ensures [starts-at-clock] result != nil && only(Now)
+
+// remaining implementations of interface methods with a declared lock effect (C20): thin contracts (memory safety, lock effects)
+//@ func (*impl.receiver).ReceiveRequest {C20}
+//@   requires incoming != nil
+//@ func (*impl.receiver).ReceiveResponse {C20}
+//@   requires incoming != nil
+//@ func (*impl.receiver).ReceiveError {C20}
+//@   requires err != nil
+//@ func (*impl.manager).OnTransferInitiated {C20}
+//@ func (*impl.manager).OnRequestCancelled {C20}
+//@ func (*impl.manager).OnSendDataError {C20}
+//@ func (*impl.manager).OnReceiveDataError {C20}
+//@ func (*impl.manager).OnContextAugment {C20}
